@@ -173,7 +173,7 @@ impl<'a> Interp<'a> {
         }
       }
     }
-    Interp { heap, classes, lines: vec![], steps: 0, max_steps: 2_000_000, depth: 0, max_depth: 3000, flags: Flags::default(), events: HashMap::new(), max_line_bytes: 1 << 20 }
+    Interp { heap, classes, lines: vec![], steps: 0, max_steps: 2_000_000, depth: 0, max_depth: 3000, flags: Flags::default(), events: HashMap::new(), max_line_bytes: 1 << 18 }
   }
 
   pub fn with_budget(mut self, steps: u64, depth: u32) -> Self {
